@@ -38,6 +38,15 @@ CHECKS = [
          note='Trusted: the re-implementation of the documented table semantics (vf/oracles/valence_ref.py) and RDKit valence '
               'model as independent judge for common chemistry; consistent edits of exotic data tuples outside RDKit are a stated limit.',
          technique='exhaustive enumeration of centre states + property-based molecules against a table re-derivation and RDKit differential'),
+    dict(id='C05',
+         text='Generated aromatic systems (ring-system generator building Kekule graphs by an independent perfect-matching routine, '
+              'plus corpus/curated/literal/constructive molecules) are converted back and forth: invariants of kekule()/thiele() '
+              '(completeness, valence, connectivity, formula, charges, radicals, per-atom H, idempotence, round trip), every '
+              'enumerated Kekule form valid/distinct/complete against the perfect-matching count and aromatising to one form, '
+              'atom-wise equality of the aromatic form under a drawn rebuild/renumbering, RDKit resonance equivalence.',
+         note='Trusted: independent perfect-matching counter (exact only for C / pyridine-N systems, applied only there), MCB '
+              'uniqueness oracle, RDKit. Tautomer fixing is held off for per-atom clauses (documented behaviour).',
+         technique='property-based testing with a constructive ring-system generator; invariant, round-trip, metamorphic (renumbering) and differential (matching count, RDKit) oracles'),
     dict(id='C06',
          text='Exhaustive enumeration of labelled connected graphs (degree <= 4; n <= 6 complete and a rotating 5 % slice of n = 7 '
               'in quick; n = 7 complete and n = 8 with <= 3 rings in thorough) plus generated ring assemblies, macrocycles, corpus '
